@@ -135,6 +135,10 @@ def eval_twin(case):
         name = op['op']
         if name in ('assign', 'copy', 'conv', 'iadd'):
             continue
+        if len(S) > 250:
+            break   # values only grow from here (self-replacement squares the length); the library's replace is quadratic
+        if name == 'replace' and op['new'].get('k') in ('self', 'prog') and S.base_str.count(op['old']) > 12:
+            continue
         op = dict(op)
         op['ip'] = False
         if 'ext' in op:
